@@ -146,3 +146,45 @@ func InflightDone() {
 		_ = inflightF.Truncate(0)
 	}
 }
+
+// ---------------------------------------------------------------- plain (non-rapid) failures
+
+var (
+	reportedMu sync.Mutex
+	reported   = map[string]bool{}
+)
+
+type errorer interface {
+	Helper()
+	Errorf(format string, args ...any)
+}
+
+// Report is Fail for enumeration loops outside rapid: it marks the test failed
+// but lets the loop continue, prints each signature once, and saves the failing
+// (target, input) pair as a replayable case file for the driver.
+func Report(t errorer, sig, target string, input []byte, format string, args ...any) {
+	t.Helper()
+	if IsKnown(sig) {
+		subsMu.Lock()
+		known[sig]++
+		subsMu.Unlock()
+		return
+	}
+	reportedMu.Lock()
+	seen := reported[sig]
+	reported[sig] = true
+	reportedMu.Unlock()
+	if seen {
+		return
+	}
+	t.Errorf("SIG=%s %s", sig, fmt.Sprintf(format, args...))
+	if OutDir == "" || target == "" {
+		return
+	}
+	dir := filepath.Join(OutDir, "cases")
+	_ = os.MkdirAll(dir, 0o755)
+	h := sha256.Sum256(append([]byte(target+"\x00"), input...))
+	base := filepath.Join(dir, fmt.Sprintf("%s-%x", safe(sig), h[:5]))
+	_ = os.WriteFile(base+".case", append([]byte(fmt.Sprintf("%s\n%d\n", target, len(input))), input...), 0o644)
+	_ = os.WriteFile(base+".case.sig", []byte(sig), 0o644)
+}
